@@ -17,6 +17,7 @@ MODULES = [
     "contracts.web",
     "contracts.base",
     "contracts.db",
+    "contracts.util",
 ]
 for m in MODULES:
     importlib.import_module(m)
@@ -31,6 +32,7 @@ COMMON_ASSUMPTIONS = ["A1", "A6", "A7"]
 
 _TB = ["z3 SMT solver (cvc5 for string queries z3 leaves open)", "pyvc VC generator (/verif/pyvc)", "CPython ast module"]
 PROPERTIES = {
+    "C04": {"level": "proof", "trusted_base": _TB, "assumptions": ["EV", "ENC", "JSON", "SQL"]},
     "C03": {"level": "proof", "trusted_base": _TB, "assumptions": ["EV", "SQL", "JSON"]},
     "C05": {"level": "proof", "trusted_base": _TB, "assumptions": ["EV", "A4"]},
     "C06": {"level": "proof", "trusted_base": _TB, "assumptions": ["EV", "SQL", "WS", "JSON", "A4"]},
